@@ -342,7 +342,7 @@ pub fn run(ctx: &Ctx) -> Report {
         let mut list: Vec<(String, u8)> = all.iter().filter(|x| x.1 <= 4 && !x.0.contains('|')).take(ctx.tier.pick(10, 50)).cloned().collect();
         list.extend(all.iter().filter(|x| x.0.contains('|')).take(ctx.tier.pick(10, 50)).cloned());
         let mut tables: Vec<Vec<(String, String)>> = vec![];
-        for proc_ in 0..3 {
+        for proc_ in 0..4 {
             let mut t = vec![];
             // variants 1 and 2: ucinewgame first, and the command loop / the search thread held
             // back at a schedule point (whatever the go handler does after spawning the search then
@@ -350,13 +350,14 @@ pub fn run(ctx: &Ctx) -> Report {
             let env: Vec<(String, String)> = match proc_ {
                 0 => vec![],
                 1 => vec![("RCE_VERIF_SCHED".to_string(), "uci:spawned=60".to_string())],
-                _ => vec![("RCE_VERIF_SCHED".to_string(), "uci:spawned=200,search:enter=30".to_string())],
+                2 => vec![("RCE_VERIF_SCHED".to_string(), "uci:spawned=200,search:enter=30".to_string())],
+                _ => vec![],
             };
             for (key, d) in &list {
                 let (fen, moves) = split_key(key);
                 // one engine process per search, so every search starts from an empty cache
                 let Ok(mut e) = Engine::spawn(&ctx.engine, &env) else { continue };
-                if proc_ > 0 {
+                if proc_ == 1 || proc_ == 2 {
                     e.send("ucinewgame");
                 }
                 if moves.is_empty() {
@@ -365,8 +366,17 @@ pub fn run(ctx: &Ctx) -> Report {
                     e.send(&format!("position fen {fen} moves {}", moves.join(" ")));
                 }
                 e.send(&format!("go depth {d}"));
+                if proc_ == 3 {
+                    // variant 3: the GUI keeps asking isready while the search runs (the command loop
+                    // works alongside the search; whatever it touches must not change the search)
+                    let mut flood = String::new();
+                    for _ in 0..300 {
+                        flood.push_str("isready\n");
+                    }
+                    e.send_raw(flood.as_bytes());
+                }
                 let best = e.wait_for(Duration::from_secs(60), |ev| (ev.stream == Stream::Out && ev.line.starts_with("bestmove")) || ev.eof);
-                let nodes = e.stdout_lines().iter().rev().find(|l| l.line.starts_with("info")).and_then(|l| {
+                let nodes = e.stdout_lines().iter().rev().find(|l| l.line.starts_with("info") && l.line.contains(" nodes ")).and_then(|l| {
                     let toks: Vec<&str> = l.line.split_whitespace().collect();
                     toks.iter().position(|t| *t == "nodes").and_then(|i| toks.get(i + 1)).map(|s| s.to_string())
                 });
@@ -394,7 +404,7 @@ pub fn run(ctx: &Ctx) -> Report {
                 }
             }
         }
-        rep.class_n("uci-searches-compared-across-3-engine-processes", list.len() as u64);
+        rep.class_n("uci-searches-compared-across-4-engine-processes", list.len() as u64);
         // a deep search (several hundred thousand cache entries) in three engine processes at
         // once, one of them frozen for a second in the middle; and the advertised options set
         // before a medium search: all must be identical
@@ -599,5 +609,5 @@ pub fn replay(ctx: &Ctx, case: &Value) -> Report {
 }
 
 pub const LEVEL: &str = "exploration";
-pub const RULE: &str = "(position, depth) = the 62 bench FENs at depth 4-5 (quick) / 5-6 (thorough), corpus positions at depth 3-4 and 30/120 positions WITH game history (10-16 plies of weighted play, so remembered repetitions matter), each searched from an emptied cache 3 times per process in different orders with searches of other positions in between, in 4 separate processes running at the same time as 10 busy-loop processes and as the real 'bench' subcommand (x2 quick / x4 thorough, one run frozen for 6 s by SIGSTOP/SIGCONT); the same searches as the only search of a fresh engine process (x3: plain; after ucinewgame with the command loop held 60 ms after spawning the search; after ucinewgame with 200 ms + the search thread held 30 ms) must equal the long-lived processes' results; one deep search (depth 8 quick / 9 thorough, > 250 000 cache entries) in three concurrent engine processes, one frozen for 1.2 s; five (quick) / eight (thorough) decided endings and mating attacks searched to depth 8-12 in four fresh processes each (many root moves cost the same there, so an ordering of equals that varies from process to process shows in the node count); a depth-6 search with and without the advertised options set; each worker process starts with a different primer search (other side to move, drawn endings, a game with repetitions) and visits the list in its own rotation, reverse rotation and stride order; draw-rich positions (stalemate traps, fifty-move clocks 96-97, to-and-fro histories) are part of the list; a cold-start storm (4000 quick / 40000 thorough freshly started engine processes, 128 at a time while the busy loops run, the whole input written at once so the first search overlaps with whatever the process does right after start-up) must give one single (bestmove, nodes) answer; oracle = equality of (bestmove, root score, node count) across all repetitions and processes, and of the bench node total. Non-trivial = (position, depth) with >= 1000 nodes, plus the bench comparison; distinct by (position, depth).";
+pub const RULE: &str = "(position, depth) = the 62 bench FENs at depth 4-5 (quick) / 5-6 (thorough), corpus positions at depth 3-4 and 30/120 positions WITH game history (10-16 plies of weighted play, so remembered repetitions matter), each searched from an emptied cache 3 times per process in different orders with searches of other positions in between, in 4 separate processes running at the same time as 10 busy-loop processes and as the real 'bench' subcommand (x2 quick / x4 thorough, one run frozen for 6 s by SIGSTOP/SIGCONT); the same searches as the only search of a fresh engine process (x4: plain; after ucinewgame with the command loop held 60 ms after spawning the search; after ucinewgame with 200 ms + the search thread held 30 ms; with 300 isready lines sent while the search runs) must equal the long-lived processes' results; one deep search (depth 8 quick / 9 thorough, > 250 000 cache entries) in three concurrent engine processes, one frozen for 1.2 s; five (quick) / eight (thorough) decided endings and mating attacks searched to depth 8-12 in four fresh processes each (many root moves cost the same there, so an ordering of equals that varies from process to process shows in the node count); a depth-6 search with and without the advertised options set; each worker process starts with a different primer search (other side to move, drawn endings, a game with repetitions) and visits the list in its own rotation, reverse rotation and stride order; draw-rich positions (stalemate traps, fifty-move clocks 96-97, to-and-fro histories) are part of the list; a cold-start storm (4000 quick / 40000 thorough freshly started engine processes, 128 at a time while the busy loops run, the whole input written at once so the first search overlaps with whatever the process does right after start-up) must give one single (bestmove, nodes) answer; oracle = equality of (bestmove, root score, node count) across all repetitions and processes, and of the bench node total. Non-trivial = (position, depth) with >= 1000 nodes, plus the bench comparison; distinct by (position, depth).";
 pub const ASSUMPTIONS: &[&str] = &["equality is the whole oracle; nothing is assumed about which move is best", "machine load is produced by the harness itself (10 busy loops + concurrent bench runs on 16 cores)"];
